@@ -1335,6 +1335,16 @@ fn families() -> Vec<Scenario> {
                                                (K_ABANDON, who, 0), (K_SETTLE, 0, 0), (K_KILL, 0, 0), (K_START, 0, 0), (K_SETTLE, 0, 0)]));
         }
     }
+    // 32: the handler's status snapshot goes stale the other way round: Y is unreachable (idle retrier) when the handler starts, X HOLDS
+    //     the request, Y comes back and its pending data is delivered (manual retry; tower shown reachable, retrier gone), and only then
+    //     X answers and the handler reaches Y.  The new appointment must still get to Y within the delays (fix 36c4b8c: it used to be
+    //     stored as pending for a reachable tower with nobody to deliver it).  Visiting order = the HashMap's: both roles, several times.
+    for i in 0..8u64 {
+        let (x, y) = if i % 2 == 0 { (0, 1) } else { (1, 0) };
+        v.push(fam(32, 2, (2, 3, 1), vec![(K_REG, 0, R_GOOD), (K_REG, 1, R_GOOD), (K_UP, y, 0), (K_REV, 0, 0), (K_WAITSTATUS, y, 2), (K_MODE, x, A_HOLD), (K_REVNOWAIT, 1, 0),
+                                          (K_WAITREQ, x, 1), (K_UP, y, 1), (K_RETRY, y, 0), (K_WAITSTATUS, y, 0), (K_MODE, x, A_ACCEPT), (K_SETTLE, 0, 0),
+                                          (K_SLEEP, 9000, 0), (K_SETTLE, 0, 0)]));
+    }
     // 28: the plugin is KILLED at some point of a bulk delivery and started again: what had a record before has one after
     for ms in [1250u64, 1400, 1550, 1700, 1850, 2000, 2150, 2300] {
         let mut steps = vec![(K_REG, 0, R_GOOD), (K_UP, 0, 0), (K_REV, 0, 0), (K_SETTLE, 0, 0)];
